@@ -484,6 +484,12 @@ func truncate(limit int, s string) string {
 			s = s[i:]
 			break
 		}
+
+		// A validly encoded U+FFFD is a character like any other.
+		count++
+		if count > limit {
+			return s[:i]
+		}
 	}
 
 	// Fast-path, no invalid input.
